@@ -1,0 +1,15 @@
+//go:build verif
+
+package pokerface
+
+import "math/rand"
+
+// VerifShuffleSeed, when set by a simulator, supplies the seed of every
+// shuffle (ShuffleCards otherwise seeds the generator from the wall clock).
+var VerifShuffleSeed func() int64
+
+func verifReseed() {
+	if VerifShuffleSeed != nil {
+		rand.Seed(VerifShuffleSeed())
+	}
+}
